@@ -204,6 +204,14 @@ func genResponse(rng *rand.Rand, reps []int) *respScript {
 	}
 	if rng.Intn(4) == 0 {
 		d := 1 + rng.Intn(6)
+		switch rng.Intn(8) {
+		case 0:
+			d = 14 + rng.Intn(6) // around 16
+		case 1:
+			d = 30 + rng.Intn(40)
+		case 2:
+			d = 250 + rng.Intn(10) // around 255 / 256
+		}
 		var chain []ref.Exception
 		for i := 0; i < d; i++ {
 			code := int32(rng.Intn(1100))
